@@ -6,9 +6,11 @@ mod tables;
 mod vc;
 mod vm;
 
+#[cfg(feature = "derive-internals")]
 #[allow(dead_code, unused_imports)]
 #[path = "/repo/bio-seq-derive/src/codec.rs"]
 mod derive_codec;
+#[cfg(feature = "derive-internals")]
 #[allow(dead_code, unused_imports)]
 #[path = "/repo/bio-seq-derive/src/seqarray.rs"]
 mod derive_seqarray;
